@@ -23,9 +23,17 @@
               "pub" = the specification's public key of those secret bytes; with "spec": true also "rfc" = the value RFC 6979 /
               RFC 8032 fix (differs from "sig" only for ECDSA when H(m) ≥ n)
      verify ↦ true | false | {"err": kind} | {"sigerr": kind}             the specification's verdict (strict Ed25519 / ECDSA)
-   kind "c13:selftest" ↦ the specifications' own tests against the RFC vectors. -/
+   kind "c13:selftest" ↦ the specifications' own tests against the RFC vectors.
+   Gap ops (kinds "c13:create", "c13:seed"; model `Model/Seed.lean`; errors of the first three are CRYPTO error kinds):
+     {"op": "create", "key", "via": "any"|"concrete", "msg", "t"} ↦ {"ok": length, "csig": hex} | {"err": kind}    `create_signature`
+     {"op": "siglen", "t"}                                         ↦ {"len": n} | {"err": kind}                      `signature_length`
+     {"op": "edsign", "key", "msg"}                                ↦ hex | null                                      `Ed25519KeyPair::sign`
+     {"op": "seed", "alg", "seed", "method", "msg"}                ↦ {"sk", "pk", "sig"} | {"err": kind}             `LocalKey::from_seed`:
+        the secret bytes computed from the seed by the model over the ChaCha20 / SHA-256 / HKDF specifications, then public key and
+        signature of `msg` by the signature specifications (signing algorithms only). -/
 import Driver.Common
 import AskarModel.Model.Sign
+import AskarModel.Model.Seed
 import AskarModel.Crypto.Ed25519
 import AskarModel.Crypto.Ecdsa
 import Std.Data.HashMap
@@ -192,8 +200,63 @@ def specSignC (c : Cache) (a : SigAlg) (rfc : Bool) (sk msg : Bytes) : Option By
     let v := specSign a rfc sk msg
     (v, c.insert (algTag a, sk, msg, rfc) v)
 
+def jcerr (e : CErr) : Json := jerr (Seed.CErr.name e)
+
+/-- `LocalKey::from_seed` and what the seeded key signs -/
+def runSeed (op : Json) : Json :=
+  match algOfName (str! op "alg") with
+  | none => jerr "noalg"
+  | some alg =>
+    match Seed.fromSeed Seed.Std.prims Seed.seedStrictCurrent alg (hex! op "seed") (strOpt op "method") with
+    | .err e => jerr e.name
+    | .panic _ => jerr "Panic"
+    | .ok sk =>
+      match alg.sigAlg? with
+      | some a => Json.mkObj [("sk", jhex sk), ("pk", ((specPub a sk).map jhex).getD .null),
+                              ("sig", ((specSign a false sk (hex! op "msg")).map jhex).getD .null)]
+      | none => Json.mkObj [("sk", jhex sk), ("pk", .null), ("sig", .null)]
+
+/-- the gap ops that need a key -/
+def runKeyGapOp (k : MKey) (c : Cache) (op : Json) : Json × Cache :=
+  let msg := hex! op "msg"
+  if str! op "op" == "edsign" then
+    if k.key.alg ≠ .ed25519 then (jerr "notEd25519", c) else
+    match Seed.ed25519Sign Toy.schemes.ed25519 k.key msg, k.real.sk with
+    | none, _ => (.null, c)
+    | some _, some sk => let (s, c) := specSignC c .ed25519 false sk msg; ((s.map jhex).getD .null, c)
+    | some _, none => (jerr "NoSecretBytes", c)
+  else
+    match parseSigType (tOf op) with
+    | .err e => (jcerr e, c)
+    | .panic _ => (jerr "Panic", c)
+    | .ok st =>
+      let r : Option (Res CErr Bytes) :=
+        if str! op "via" == "concrete" then k.key.alg.sigAlg?.map fun a => Seed.concreteCreateSignature Toy.schemes a k.key msg st
+        else some (Seed.anyCreateSignature Toy.schemes k.key msg st)
+      match r with
+      | none => (jerr "noconcrete", c)
+      | some (.err e) => (jcerr e, c)
+      | some (.panic _) => (jerr "Panic", c)
+      | some (.ok toy) =>
+        match k.key.alg.sigAlg?, k.real.sk with
+        | some a, some sk =>
+          let (sig, c) := specSignC c a false sk msg
+          (Json.mkObj [("ok", jnat ((sig.map List.length).getD toy.length)), ("csig", (sig.map jhex).getD .null)], c)
+        | _, _ => (Json.mkObj [("ok", jnat toy.length), ("csig", .null)], c)
+
 def runOp (keys : List (Option MKey)) (wantRfc : Bool) (c : Cache) (op : Json) : Json × Cache :=
+  if str! op "op" == "siglen" then
+    (match Seed.signatureLengthOf (str! op "t").toList with
+     | .ok n => Json.mkObj [("len", jnat n)]
+     | .err e => jcerr e
+     | .panic _ => jerr "Panic", c) else
+  if str! op "op" == "seed" then (runSeed op, c) else
   let ki := nat! op "key"
+  if str! op "op" == "create" || str! op "op" == "edsign" then
+    match (keys[ki]?).join with
+    | none => (jerr "nokey", c)
+    | some k => runKeyGapOp k c op
+  else
   match (keys[ki]?).join with
   | none => (jerr "nokey", c)
   | some k =>
